@@ -1,0 +1,39 @@
+//go:build verif
+
+package submission
+
+// VerifTraceSink, when set by a verification harness, receives one event per
+// critical section of safeSubmissionState.  Events are emitted while sub.mu is
+// held, so their order is the order of the state changes.
+var VerifTraceSink func(ev map[string]any)
+
+// verifTrace must be called with sub.mu held.
+func verifTrace(sub *safeSubmissionState, ev string, logURL string, flag bool) {
+	sink := VerifTraceSink
+	if sink == nil {
+		return
+	}
+	needs := make(map[string]int, len(sub.groupNeeds))
+	for g, n := range sub.groupNeeds {
+		needs[g] = n
+	}
+	results := make(map[string]string, len(sub.results))
+	for l, r := range sub.results {
+		switch {
+		case r == nil:
+		case r.sct != nil:
+			results[l] = "sct"
+		case r.err != nil:
+			results[l] = "err"
+		default:
+			results[l] = "pending"
+		}
+	}
+	cancels := []string{}
+	for l, c := range sub.cancels {
+		if c != nil {
+			cancels = append(cancels, l)
+		}
+	}
+	sink(map[string]any{"ev": ev, "log": logURL, "flag": flag, "needs": needs, "results": results, "cancellable": cancels, "sub": sub})
+}
